@@ -59,7 +59,7 @@ func GenURIPostCase(r *vh.Rand) string {
 		return Line{Kind: 'R', A: genURI(r), B: r.Pick(tagPool), Body: genBody(r)}
 	})
 	fin := r.Chance(2, 3)
-	return fmt.Sprintf("uripost %d %s %s %s", r.Range(1, 3), vh.B(fin), vh.Hex(RenderSized(ls, fin, true)), Tokens(ls))
+	return fmt.Sprintf("uripost %s %s %s %s", genPasses(r), vh.B(fin), vh.Hex(RenderSized(ls, fin, true)), Tokens(ls))
 }
 
 var rawMethods = []string{"GET", "GET", "POST", "PUT", "DELETE", "HEAD", "OPTIONS", "PATCH"}
@@ -102,7 +102,7 @@ func GenRawCase(r *vh.Rand) string {
 		return Line{Kind: 'R', B: r.Pick(tagPool), Body: genRawRequest(r)}
 	})
 	fin := r.Chance(2, 3)
-	return fmt.Sprintf("raw %d %s %s %s", r.Range(1, 3), vh.B(fin), vh.Hex(RenderSized(ls, fin, false)), Tokens(ls))
+	return fmt.Sprintf("raw %s %s %s %s", genPasses(r), vh.B(fin), vh.Hex(RenderSized(ls, fin, false)), Tokens(ls))
 }
 
 // ---------------------------------------------------------------------------------------
@@ -210,7 +210,7 @@ func GenJSONCase(r *vh.Rand) string {
 	}
 	layout := r.Intn(4)
 	fin := r.Chance(2, 3)
-	return fmt.Sprintf("json %d %s %s %s", r.Range(1, 3), vh.B(layout >= 2), vh.Hex(RenderJSON(r, es, layout, fin)), strings.Join(toks, " "))
+	return fmt.Sprintf("json %s %s %s %s", genPasses(r), vh.B(layout >= 2), vh.Hex(RenderJSON(r, es, layout, fin)), strings.Join(toks, " "))
 }
 
 // oracleJSON: what encoding/json yields on the file, split the way jsonline.go uses it:
